@@ -313,10 +313,11 @@ class Vec(Obj):
     """std::vector<T> of scalars: len: Int, data: Array(Int -> Int)"""
     cls = "std::vector"
 
-    def __init__(self, ctx, name="vec", length=None, data=None, sort=None):
+    def __init__(self, ctx, name="vec", length=None, data=None, sort=None, elem=None):
         Obj.__init__(self, name=name)
         ctx.store[(self.oid, "len")] = length if length is not None else z3.Int(name + "_len0")
         ctx.store[(self.oid, "data")] = data if data is not None else z3.Array(name + "_data0", I_, sort or I_)
+        self.elem = elem  # for vectors of structs: idx -> element object
 
     def length(self, ctx):
         return ctx.store[(self.oid, "len")]
@@ -326,6 +327,8 @@ class Vec(Obj):
 
     def elem_loc(self, idx):
         from .interp import ArrLoc
+        if self.elem is not None:
+            return self.elem(idx)
         return ArrLoc((self.oid, "data"), idx)
 
     def m_size(self, I, args, n):
